@@ -630,3 +630,128 @@ Proof.
       left. apply (in_find _ _ _ (inv_nodup _ I)) in H. congruence.
   - exfalso. apply find_in in Hf. destruct (inv_lru _ I _ _ Hf) as (e & He' & _). congruence.
 Qed.
+
+(* ---------- capacity bound (LRUCache never holds more than MaxEntries values) ---------- *)
+Definition capinv (s : st) : Prop := cap s <> 0 -> length (lru s) <= cap s.
+
+Lemma del_length_le l k : length (lru_del l k) <= length l.
+Proof. induction l as [|[k' i] l IH]; simpl; [lia|]. destruct (k' =? k); simpl; lia. Qed.
+
+Lemma del_notin_id l k : ~ In k (map fst l) -> lru_del l k = l.
+Proof.
+  induction l as [|[k' j] l IH]; simpl; intros Hn; [reflexivity|].
+  destruct (Nat.eqb_spec k' k) as [->|Hne]; [exfalso; apply Hn; auto|].
+  f_equal. apply IH. intros H. apply Hn. auto.
+Qed.
+
+Lemma del_length_found l k i : NoDup (map fst l) -> lru_find l k = Some i -> S (length (lru_del l k)) = length l.
+Proof.
+  induction l as [|[k' j] l IH]; simpl; intros ND H; [discriminate|].
+  inversion ND as [|? ? Hn ND']; subst.
+  destruct (Nat.eqb_spec k' k) as [->|Hne].
+  - rewrite (del_notin_id _ _ Hn). reflexivity.
+  - simpl. f_equal. apply IH; assumption.
+Qed.
+
+Lemma dec_shape s i : cap (dec s i) = cap s /\ lru (dec s i) = lru s.
+Proof. unfold dec. destruct (nth_error (ents s) i); [|auto]. destruct (_ <=? 0)%Z; auto. Qed.
+Lemma finalize_shape s i : cap (finalize s i) = cap s /\ lru (finalize s i) = lru s.
+Proof.
+  unfold finalize. destruct (nth_error (ents s) i) as [e|]; [|auto]. destruct (e_fin e); [auto|].
+  match goal with |- context [dec ?s' i] => destruct (dec_shape s' i) as [-> ->] end. auto.
+Qed.
+Lemma acquire_shape s i : cap (acquire s i) = cap s /\ lru (acquire s i) = lru s.
+Proof. unfold acquire, inc. destruct (nth_error (ents s) i); auto. Qed.
+
+Lemma evict_key_shape s k : cap (evict_key s k) = cap s /\ length (lru (evict_key s k)) <= length (lru s).
+Proof.
+  unfold evict_key. destruct (lru_find (lru s) k); [|auto].
+  match goal with |- context [finalize ?s' ?i] => destruct (finalize_shape s' i) as [-> ->] end.
+  simpl. split; [reflexivity|apply del_length_le].
+Qed.
+
+Lemma last_some_in {A} (l : list A) x : last (map Some l) None = Some x -> In x l.
+Proof.
+  induction l as [|a l IH]; simpl; [discriminate|].
+  destruct l as [|b l']; simpl in *; [intros H; inversion H; auto|intros H; right; apply IH; exact H].
+Qed.
+
+Lemma last_some_none {A} (l : list A) : last (map Some l) (@None A) = None -> l = [].
+Proof.
+  induction l as [|a l IH]; simpl; [reflexivity|].
+  destruct l as [|b l']; simpl in *; [discriminate|]. intros H. specialize (IH H). discriminate.
+Qed.
+
+Lemma trim_cap s : Inv s -> length (lru s) <= S (cap s) -> cap (trim s) = cap s /\ capinv (trim s).
+Proof.
+  intros I Hlen. unfold trim, capinv.
+  destruct (Nat.eqb_spec (cap s) 0) as [Hz|Hz]; simpl; [split; [reflexivity|congruence]|].
+  destruct (Nat.ltb_spec (cap s) (length (lru s))) as [Hlt|Hge]; [|split; [reflexivity|intros _; lia]].
+  destruct (last (map Some (lru s)) None) as [[k i]|] eqn:Hl; [|split; [reflexivity|intros _; apply last_some_none in Hl; rewrite Hl in Hlt; simpl in Hlt; lia]].
+  apply last_some_in in Hl.
+  pose proof (in_find _ _ _ (inv_nodup _ I) Hl) as Hf.
+  unfold evict_key. rewrite Hf.
+  match goal with |- context [finalize ?s' ?j] => destruct (finalize_shape s' j) as [-> ->] end. simpl.
+  split; [reflexivity|]. intros _.
+  pose proof (del_length_found _ _ _ (inv_nodup _ I) Hf). lia.
+Qed.
+
+Lemma touch_length s k i : Inv s -> lru_find (lru s) k = Some i -> length (lru (touch s k i)) = length (lru s).
+Proof. intros I Hf. simpl. apply (del_length_found _ _ _ (inv_nodup _ I) Hf). Qed.
+
+Lemma rel_evict_shape s i : cap (rel_evict s i) = cap s /\ length (lru (rel_evict s i)) <= length (lru s).
+Proof.
+  unfold rel_evict. destruct (finalize_shape s i) as [Hc Hl].
+  destruct (nth_error (ents (finalize s i)) i) as [e|]; [|rewrite Hc, Hl; auto].
+  destruct (lru_find (lru (finalize s i)) (e_key e)) as [j|]; [|rewrite Hc, Hl; auto].
+  destruct (j =? i); simpl; rewrite ?Hc, ?Hl; split; auto. apply del_length_le.
+Qed.
+
+Lemma trim_cap0 s : cap s = 0 -> trim s = s.
+Proof. intros H. unfold trim. rewrite H. reflexivity. Qed.
+
+Lemma step_add_hit s k i : lru_find (lru s) k = Some i -> step s (Add k) = (acquire (touch s k i) i, Some (i, false)).
+Proof. intros H. simpl. rewrite H. reflexivity. Qed.
+Lemma step_get_hit s k i : lru_find (lru s) k = Some i -> step s (Get k) = (acquire (touch s k i) i, Some (i, true)).
+Proof. intros H. simpl. rewrite H. reflexivity. Qed.
+Lemma step_get_miss s k : lru_find (lru s) k = None -> step s (Get k) = (s, None).
+Proof. intros H. simpl. rewrite H. reflexivity. Qed.
+
+Theorem step_capinv s o : Inv s -> capinv s -> cap (fst (step s o)) = cap s /\ capinv (fst (step s o)).
+Proof.
+  intros I C. unfold capinv in *.
+  destruct o as [k|k|k|k|h ev].
+  - destruct (lru_find (lru s) k) as [i|] eqn:Hf.
+    + rewrite (step_add_hit _ _ _ Hf). cbn [fst]. destruct (acquire_shape (touch s k i) i) as [-> ->].
+      simpl. split; [reflexivity|]. intros Hc. rewrite (del_length_found _ _ _ (inv_nodup _ I) Hf). auto.
+    + rewrite (step_add_new _ _ Hf). cbn [fst].
+      assert (Hcap : cap (add_new s k) = cap s) by (unfold add_new, acquire, inc; simpl; destruct (nth_error _ _); reflexivity).
+      assert (Hlru : lru (add_new s k) = (k, length (ents s)) :: lru s) by (unfold add_new, acquire, inc; simpl; destruct (nth_error _ _); reflexivity).
+      destruct (Nat.eq_dec (cap s) 0) as [Hz|Hz].
+      * rewrite trim_cap0 by (rewrite Hcap; exact Hz). split; [exact Hcap|]. intros Hn. exfalso. apply Hn. rewrite Hcap. exact Hz.
+      * destruct (trim_cap (add_new s k) (add_new_inv s k I Hf)) as [Hc' Hi'].
+        { rewrite Hlru, Hcap. simpl. specialize (C Hz). lia. }
+        rewrite Hc', Hcap. split; [reflexivity|]. unfold capinv in Hi'. rewrite Hc', Hcap in Hi'. exact Hi'.
+  - destruct (lru_find (lru s) k) as [i|] eqn:Hf; [rewrite (step_get_hit _ _ _ Hf)|rewrite (step_get_miss _ _ Hf); auto].
+    cbn [fst]. destruct (acquire_shape (touch s k i) i) as [-> ->]. simpl. split; [reflexivity|].
+    intros Hc. rewrite (del_length_found _ _ _ (inv_nodup _ I) Hf). auto.
+  - simpl. destruct (evict_key_shape s k) as [-> Hl]. split; [reflexivity|intros Hc; specialize (C Hc); lia].
+  - simpl. destruct (evict_key_shape s k) as [-> Hl]. split; [reflexivity|intros Hc; specialize (C Hc); lia].
+  - simpl. destruct (nth_error (hs s) h) as [[i fired]|]; simpl; [|auto].
+    set (s1 := if fired then s else dec (set_hs s (upd (hs s) h (i, true))) i).
+    assert (H1 : cap s1 = cap s /\ lru s1 = lru s).
+    { unfold s1. destruct fired; [auto|]. match goal with |- context [dec ?s' i] => destruct (dec_shape s' i) as [-> ->] end. auto. }
+    destruct H1 as [Hc1 Hl1].
+    destruct ev.
+    + change (cap (rel_evict s1 i) = cap s /\ (cap (rel_evict s1 i) <> 0 -> length (lru (rel_evict s1 i)) <= cap (rel_evict s1 i))).
+      destruct (rel_evict_shape s1 i) as [-> Hl]. rewrite Hc1. split; [reflexivity|]. intros Hc. specialize (C Hc). rewrite Hl1 in Hl. lia.
+    + rewrite Hc1, Hl1. auto.
+Qed.
+
+Theorem reach_capinv c os : cap (exec (init c) os) = c /\ capinv (exec (init c) os).
+Proof.
+  assert (G : forall os s, Inv s -> capinv s -> cap (exec s os) = cap s /\ capinv (exec s os)).
+  { unfold exec. induction os0 as [|o os0 IH]; simpl; intros s I C; [auto|].
+    destruct (step_capinv s o I C) as [Hc Hi]. destruct (IH _ (step_inv s o I) Hi) as [Hc' Hi']. rewrite Hc', Hc. auto. }
+  apply G; [apply Inv_init|]. unfold capinv. simpl. intros _. lia.
+Qed.
